@@ -65,6 +65,18 @@ impl Multipart {
 pub struct ParseCredentialError { pub o: u64 }
 pub struct ParseAmzDateError { pub o: u64 }
 pub struct AmzDate { pub o: u64 }
+/// `YYYYMMDD` of an x-amz-date value: the date the credential scope is built from (AmzDate::fmt_date — format!, trusted)
+pub uninterp spec fn spec_date_text(d: AmzDate) -> Seq<char>;
+pub struct ArrayString8 { pub o: u64 }
+impl ArrayString8 {
+    pub uninterp spec fn view(&self) -> Seq<char>;
+    #[verifier::external_body]
+    pub fn as_str(&self) -> (r: &str) ensures r@ == self@ { unimplemented!() }
+}
+impl AmzDate {
+    #[verifier::external_body]
+    pub fn fmt_date(&self) -> (r: ArrayString8) ensures r@ == spec_date_text(*self) { unimplemented!() }
+}
 /// CredentialV4::parse / AmzDate::parse as functions of the text (VU-sigleaf decides the date parser; the credential parser is nom code)
 pub uninterp spec fn spec_parse_credential(s: Seq<char>) -> Option<(Seq<char>, Seq<char>, Seq<char>, Seq<char>)>;   // access key, date, region, service
 pub uninterp spec fn spec_parse_amz_date(s: Seq<char>) -> Option<AmzDate>;
@@ -202,6 +214,8 @@ pub open spec fn signed_by(auth: S3AuthObj, m: Multipart, access_key: Seq<char>,
     &&& spec_parse_credential(m.fv("x-amz-credential"@)->Some_0) is Some
     &&& spec_parse_amz_date(m.fv("x-amz-date"@)->Some_0) is Some
     &&& spec_parse_credential(m.fv("x-amz-credential"@)->Some_0)->Some_0.0 == access_key
+    // the date of the credential scope the form presents is the date its signature was made for
+    &&& spec_parse_credential(m.fv("x-amz-credential"@)->Some_0)->Some_0.1 == spec_date_text(spec_parse_amz_date(m.fv("x-amz-date"@)->Some_0)->Some_0)
     &&& auth.secret_of(access_key) == Some(secret)
     &&& m.fv("x-amz-signature"@)->Some_0 == sig_v4::spec_signature(m.fv("policy"@)->Some_0, secret, spec_parse_amz_date(m.fv("x-amz-date"@)->Some_0)->Some_0,
             spec_parse_credential(m.fv("x-amz-credential"@)->Some_0)->Some_0.2, spec_parse_credential(m.fv("x-amz-credential"@)->Some_0)->Some_0.3)
